@@ -19,7 +19,7 @@ NA = {
  "C15": "yq output re-readability is a pure function of (document, program, indent); no I/O seam is involved in the statement.",
  "C16": "Same as C05 for YAML; the SUCCINCTLY_SIMD clamp is read once per process into a OnceLock and is configuration, not a schedule.",
  "C18": "The strict YAML validator is a pure recogniser.",
- "C19": "Quantifies over byte strings only: parse, traverse and print are a pure function of the bytes, and the statement has no clause about a refused resource for a simulator to own.",
+ "C19": "Quantifies over byte strings only: parse, traverse and print are a pure function of the bytes, and the statement has no clause about a refused resource for a simulator to own. (Its program-parser sentence is exercised as traffic of the C30 simulation, which found and repaired a parser panic on non-ASCII lookahead.)",
  "C20": "Same as C05 for DSV.",
  "C21": "DSV row/field iteration reads an immutable index; pure function of (text, config, indices).",
  "C22": "@csv/@dsv -> --input-dsv is a composition of two pure functions.",
